@@ -48,7 +48,13 @@ def snapshot(h):
 def accessors(h):
     """Call the no-argument read accessors that exist on h; exceptions are C13's business, not ours."""
     called = 0
+    dense = ("bin_entries", "bin_edges", "bin_centers", "num_bins", "mpv", "indexes")
+    # the dense views of a SparselyBin materialise every index between its lowest and highest filled bin: skip them
+    # when that range is huge (a far-outside datum), they would allocate gigabytes by design
+    huge = h.name == "SparselyBin" and h.bins and (max(h.bins) - min(h.bins)) > 5000
     for name in ("bin_entries", "bin_edges", "bin_centers", "num_bins", "bin_width", "bin_labels", "n_bins", "n_dim", "datatype", "mpv", "size", "keys", "values", "indexes"):
+        if huge and name in dense:
+            continue
         try:
             a = getattr(h, name)
             if callable(a):
